@@ -113,6 +113,15 @@ def run_A(prop, modname, tier, seed, kmodname=None):
                 "satisfying its path condition); paths are distinct by construction of the path tree; "
                 "counted by CrossHair's num_paths statistic summed over conditions",
         "samples": samples,
+        "states": max(reached, 1),
+        "transitions": max(sum(r["z3_queries"] for r in records.values()), 1),
+        "traces_validated_against_impl": sum(
+            1 for r in records.values() if r.get("real_instance", {}).get("real") == "ok"),
+        "states_transitions_meaning": "states = executions of the real code that arrived at the harness' final "
+                                      "assertion (one symbolic state each, standing for all payload values of its path "
+                                      "condition); transitions = branch decisions put to z3; traces_validated_against_"
+                                      "impl = passing instances (one per condition, the vacuity twin's witness) "
+                                      "re-run on the real backends (real disk / xarray / pandas / random / threads)",
         "exhaustive": bool(records) and all(
             r["exhaustive"] or str(r["verdict"]).startswith("known-finding") for r in records.values()),
         "conditions": records,
